@@ -196,6 +196,23 @@ func (c *Ctx) ruleMapOrder(rule string, m *core.Module, fns map[*ssa.Function]bo
 	}
 }
 
+// ruleConvertedKeys: only the converted-key clause of R-MAPORDER (C02: two source keys that convert to one key merge,
+// and the size bounds checked on the source no longer hold for the result).
+func (c *Ctx) ruleConvertedKeys(rule string, m *core.Module, fns map[*ssa.Function]bool) {
+	for _, fn := range m.SortedFuncs(fns) {
+		for i, l := range c.findMapLoops(m, fn) {
+			mapDesc := c.stableIn(m, fn, m.ValPath(l.mapVal))
+			if l.kind == "MapKeys" || l.kind == "MapRange" {
+				if call, ok := l.mapVal.(*ssa.Call); ok && len(call.Call.Args) > 0 {
+					mapDesc = l.kind + "(" + c.stableIn(m, fn, m.ValPath(call.Call.Args[0])) + ")"
+				}
+			}
+			base := key(rule, m.Key(fn), "loop#"+string(rune('1'+i))+" over "+mapDesc)
+			c.checkConvertedKeyInsert(rule, m, l, base, m.Pos(l.pos))
+		}
+	}
+}
+
 func (c *Ctx) stableIn(m *core.Module, fn *ssa.Function, p string) string {
 	if m == c.M {
 		return c.stable(fn, p)
